@@ -22,6 +22,7 @@ import (
 	"sync/atomic"
 	"testing"
 	"time"
+	"unsafe"
 
 	"go.opentelemetry.io/collector/component"
 	"go.opentelemetry.io/collector/component/componenttest"
@@ -305,8 +306,13 @@ func (e *vEng) settle(limit time.Duration) bool {
 	}
 }
 
+// number of engines that stopped answering (outside the planned F3 runs): on a tree that dead-locks often the
+// generator stops early instead of paying a deadline per case (the oracle failures found so far are reported)
+var vDeadCount int
+
 func (e *vEng) unstable(where string) {
 	e.dead = true
+	vDeadCount++
 	var ws []string
 	for _, p := range e.waiters() {
 		ws = append(ws, fmt.Sprintf("p%d(sz=%d,cancelled=%v)", p.id, p.sz, p.cancelled))
@@ -343,12 +349,19 @@ func (e *vEng) stableOracle() {
 		e.oracle("size-nonzero-when-all-finished", fmt.Sprintf("kind=%s size=%d", e.kindName(), size))
 	}
 	if unfinished == 0 && !e.stopped {
+		nOver := 0
+		for _, p := range e.waiters() {
+			if p.sz > e.cap {
+				nOver++
+			}
+		}
 		for _, p := range e.waiters() {
 			over := 0
 			if p.sz > e.cap {
 				over = 1
 			}
-			e.oracle("producer-blocked-on-empty-queue", fmt.Sprintf("kind=%s sz=%d cap=%d oversized=%d", e.kindName(), p.sz, e.cap, over))
+			// oversized_waiters: S1 also lets an oversized waiter consume the wake-ups of waiters that fit
+			e.oracle("producer-blocked-on-empty-queue", fmt.Sprintf("kind=%s sz=%d cap=%d oversized=%d oversized_waiters=%d", e.kindName(), p.sz, e.cap, over, nOver))
 		}
 	}
 }
@@ -528,6 +541,7 @@ func (e *vEng) opRead() {
 	case <-time.After(2 * time.Second):
 		e.lab(6, 0, 0, -1)
 		e.dead = true
+		vDeadCount++
 		e.oracle("read-does-not-return", fmt.Sprintf("kind=%s items=%d stopped=%v", e.kindName(), len(e.accepted)-len(e.handed), e.stopped))
 		return
 	}
@@ -585,6 +599,7 @@ func (e *vEng) opDone(id int, cls int64) {
 	case <-time.After(2 * time.Second):
 		e.lab(7, int64(id), cls, 20)
 		e.dead = true
+		vDeadCount++
 		e.oracle("ondone-does-not-return", fmt.Sprintf("kind=%s id=%d", e.kindName(), id))
 		return
 	}
@@ -806,12 +821,12 @@ func TestVerifC02(t *testing.T) {
 
 	// (1) sequential scripts on the non-blocking configurations
 	n1 := vBudget(900, 15)
-	for c := 0; c < n1; c++ {
+	for c := 0; c < n1 && vDeadCount < 40; c++ {
 		vScript(out, rng, c%2, false, false)
 	}
 	// (2) free-running blocking / wait-for-result scripts
 	n2 := vBudget(500, 15)
-	for c := 0; c < n2; c++ {
+	for c := 0; c < n2 && vDeadCount < 40; c++ {
 		switch c % 5 {
 		case 0:
 			vScript(out, rng, 0, true, false)
@@ -827,9 +842,14 @@ func TestVerifC02(t *testing.T) {
 	}
 	// (3) schedules forced by holding the queue's mutex (cond.go's interesting interleavings)
 	n3 := vBudget(120, 10)
-	for c := 0; c < n3; c++ {
+	for c := 0; c < n3 && vDeadCount < 40; c++ {
 		vForced(out, rng, c)
 	}
+}
+
+// number of goroutines blocked in mu.Lock(): sync.Mutex{state int32; sema uint32}, waiters = state >> 3
+func vMutexWaiters(mu *sync.Mutex) int32 {
+	return atomic.LoadInt32((*int32)(unsafe.Pointer(mu))) >> 3
 }
 
 // ---- forced schedules --------------------------------------------------------------------------------
@@ -949,8 +969,17 @@ func vForced(out *vOut, rng *vRand, c int) {
 			p.cancelled = true
 			plan = append(plan, p)
 		}
-		time.Sleep(2500 * time.Microsecond)
-		runtime.Gosched()
+		// wait until the goroutine just released is queued on the mutex (sync.Mutex.state >> 3 = number of
+		// goroutines blocked in Lock), then a little longer so that it also sits in the semaphore queue; the
+		// first waiter has then waited > 1 ms, which puts the mutex into starvation mode = strict FIFO hand-off
+		want := int32(len(plan))
+		for dl := time.Now().Add(5 * time.Second); vMutexWaiters(e.mu) < want && time.Now().Before(dl); {
+			time.Sleep(50 * time.Microsecond)
+		}
+		if vMutexWaiters(e.mu) != want {
+			out.Stat("forced_lineup_failed", 1)
+		}
+		time.Sleep(1500 * time.Microsecond)
 	}
 	e.mu.Unlock()
 	// wait for the outcome
